@@ -75,6 +75,12 @@ theorem collision_witness :
 theorem name_plan_fact :
     Generated.nameSuffixes = [".pb.fm.go", "_{{.Message.Desc.Name | string | lower}}.pb.fm.go"] := by decide
 
+/-- the plug-in keeps no state between the files of a request: no function of its package writes to a
+    package-level variable (regenerated from the go/ast of `cmd/protoc-gen-fastmarshal`). What is generated for a
+    .proto file is then a function of the request's descriptors, the options and that file alone; the exploration
+    compares every file of the multi-file requests with the one-file request for it. -/
+theorem generator_keeps_no_state_fact : Generated.generatorGlobalsWritten = [] := by decide
+
 /-- routing (see `Bridge/Templates.lean`) -/
 theorem routing_total :
     (∀ k ∈ Bridge.Templates.allKinds, Generated.sizeDispatchKinds.count k = 1) ∧
